@@ -294,16 +294,18 @@ PROPS["C11"] = dict(
 )
 
 PROPS["C17"] = dict(
-    modules=["contracts.C18_under", "contracts.C08_claims", "contracts.C04_noop", "contracts.C17_bounded"],
+    modules=["contracts.C18_under", "contracts.C08_claims", "contracts.C04_noop", "contracts.C17_results", "contracts.C17_bounded"],
     decided=["rescan_nglobs persists a registration only if the fresh scan of its own pattern and substitutions differs from "
              "its recorded matches (match sets as an abstract sort with extensionality)", "_raise_if_glob_match tests every "
              "attached registration's stored regular expression with fullmatch against every product path (C08)",
              "register_nglob records the registration exactly once and only when no recorded match is an attached product "
-             "(C08)"],
-    undecided=["the two compilers (convert_nglob_to_regex, convert_nglob_to_glob) and the match-set algebra of NamedGlob "
-               "(extend / reduce / will_change over a dict of sets): bounded stand-in only", "the regular expression engine"],
+             "(C08)", "NamedGlob.extend / reduce / will_change against the abstract recorded set, with the representation "
+             "invariant of the dict of sets, for every dict, path list and regular expression: an incremental update "
+             "records (recorded union accepted added) minus deleted, None iff that is no change, original untouched"],
+    undecided=["the two compilers (convert_nglob_to_regex, convert_nglob_to_glob) and NamedGlob.glob: bounded stand-in only",
+               "NamedGlob.files / matches (enumeration of the dict)", "the regular expression engine"],
     assumptions=["glob.iglob, re"],
-    level="The wiring of glob registrations into the workflow is under contract (C08, C04); the pattern compilers, which are "
+    level="The wiring of glob registrations into the workflow (C08, C04) and the match-set algebra are under contract; the pattern compilers, which are "
           "string automata with stateful merging, are outside the VC generator and are compared exhaustively on small "
           "patterns and trees with the standard glob, with a reference matcher written from the property, and with a "
           "rescan after incremental updates (bounded, on the real code and the real file system).",
